@@ -26,6 +26,10 @@ func extraMonitors(prop string, tr *Tracker) []Monitor {
 		return []Monitor{&monC29{base: base{tr}, pre: map[int]*c29snap{}}}
 	case "C10":
 		return []Monitor{&c10probe{base: base{tr}}}
+	case "C28":
+		return []Monitor{&monC28{base: base{tr}, ref: map[int]*refPeer{}, reqSends: map[int][]time.Duration{}, connSince: map[int]time.Duration{}}}
+	case "C21":
+		return []Monitor{&monC21junk{base: base{tr}}}
 	case "C20":
 		return []Monitor{&monC20{base: base{tr}}}
 	case "C12":
